@@ -6,6 +6,7 @@ from props.common import split_range
 
 PROP = 'C20'
 BIN = 'c20'
+DENSE = {'quick': {8: 16, 16: 16, 32: 16, 64: 16}, 'thorough': {8: 64, 16: 64, 32: 64, 64: 64}}   # bounded by the build time of this driver
 TASK_REQS = 400
 METHODS = ['gen_range', 'gen_range_inclusive', 'uniform', 'uniform_inclusive', 'sample_single', 'sample_single_inclusive']
 RULE = ('a scripted RNG replays chosen word streams and records what is consumed. (i) every draw of gen_range / gen_range_inclusive / '
